@@ -2,6 +2,7 @@ package vsched
 
 import (
 	"cmp"
+	"fmt"
 	"iter"
 	"slices"
 )
@@ -25,6 +26,34 @@ func RangeMap[M ~map[K]V, K cmp.Ordered, V any](m M) iter.Seq2[K, V] {
 				continue
 			}
 			if !yield(k, v) {
+				return
+			}
+		}
+	}
+}
+
+// RangeMapFmt iterates a map whose keys are plain value structs (no pointers) in the order of
+// their printed representation, for the same reason as RangeMap.
+func RangeMapFmt[M ~map[K]V, K comparable, V any](m M) iter.Seq2[K, V] {
+	return func(yield func(K, V) bool) {
+		if len(m) == 0 {
+			return
+		}
+		type kv struct {
+			s string
+			k K
+		}
+		keys := make([]kv, 0, len(m))
+		for k := range m {
+			keys = append(keys, kv{fmt.Sprintf("%#v", k), k})
+		}
+		slices.SortFunc(keys, func(a, b kv) int { return cmp.Compare(a.s, b.s) })
+		for _, e := range keys {
+			v, ok := m[e.k]
+			if !ok {
+				continue
+			}
+			if !yield(e.k, v) {
 				return
 			}
 		}
